@@ -20,7 +20,7 @@ use serde_json::{Value, json};
 use vecdb::{BytesVec, LZ4Vec, PcoVec, ReadableVec, ZeroCopyVec, ZstdVec};
 
 use crate::util::{Scratch, parse_flags};
-use crate::vecreplay::{Elem, VK};
+use crate::vecreplay::{Be32, Elem, VK};
 
 fn val<T: Elem>(i: usize) -> T { T::enc((i / 1024 + 1) as u64, (i % 1024) as u64) }
 
@@ -176,6 +176,7 @@ pub fn main(args: &[String]) -> i32 {
     let format = f.get("format").map(|s| s.as_str()).unwrap_or("bytes");
     let o = match format {
         "bytes" => run::<BytesVec<usize, u32>>(&f, false),
+        "bytes_be" => run::<BytesVec<usize, Be32>>(&f, false),
         "zerocopy" => run::<ZeroCopyVec<usize, u64>>(&f, false),
         "pco" => run::<PcoVec<usize, u32>>(&f, true),
         "lz4" => run::<LZ4Vec<usize, u64>>(&f, true),
